@@ -16,7 +16,7 @@ import impl
 import pyworld
 
 ID = "C06"
-THEOREMS = ["sugar_preserves", "lower_sem", "ctor_binding", "surplus_args_refused", "unknown_keyword_refused",
+THEOREMS = ["sugar_preserves", "lower_sem", "ctor_binding", "surplus_args_refused", "surplus_positional_refused", "convertCall_plain", "unknown_keyword_refused",
             "nonname_target_refused", "async_refused"]
 LEANCHECKER_MODULES = ["Fadl.Props.C06"]  # re-checked by leanchecker in the thorough tier
 RULE = (
@@ -234,9 +234,19 @@ def check_ctor_cases(ctx, n):
             py = "ok"
         except TypeError:
             obj, py = None, "TypeError"
+        import inspect as _inspect
+
+        try:
+            n_positional = sum(1 for p_ in _inspect.signature(cls).parameters.values() if p_.kind != p_.KEYWORD_ONLY)
+        except (TypeError, ValueError):
+            n_positional = k
         if py == "TypeError":
             supplied_all = len(call.args) + len(call.keywords)
-            missing_only = supplied_all <= k and all(nm in names for nm in kw_names)
+            # more positional arguments than parameters that can be bound by position (the others are keyword-only) is a
+            # surplus argument like any other
+            missing_only = supplied_all <= k and all(nm in names for nm in kw_names) and len(call.args) <= n_positional
+            if len(call.args) > n_positional:
+                ctx.dist["ctor: positional argument for a keyword-only field"] += 1
             if not missing_only and got != ("err", "ValueError"):
                 ctx.violate({**desc, "got": got[1][:200]}, "call that Python's constructor rejects (unknown / surplus argument) was not refused with ValueError")
         else:
@@ -258,7 +268,9 @@ def check_ctor_cases(ctx, n):
                     if keys is None or dict(zip(keys, values)) != want or keys != supplied:
                         ctx.violate({**desc, "lowered": ast.unparse(d), "python_binding": repr(want)},
                                     "dictionary keys/values differ from how Python's constructor binds the arguments")
-        table = f"(({q(const_tag(cls))} (" + " ".join(q(nm) for nm in names) + ")))"
+        # the class table lists the constructor parameters as Python renders a signature: "*" where the keyword-only ones begin
+        marked = list(names[:n_positional]) + (["*"] if n_positional < len(names) else []) + list(names[n_positional:])
+        table = f"(({q(const_tag(cls))} (" + " ".join(q(nm) for nm in marked) + ")))"
         reqs.append(("sugar", [table, enc(node)]))
         keep.append((desc, got))
     res = ctx.driver.batch(reqs)
